@@ -1,12 +1,21 @@
 #!/bin/bash
-# re-run, for every seeded change, the first check named in its meta.json "caught_by" against the scratch worktree
+# Re-run, for every seeded change, the first check named in its meta.json "caught_by" against a scratch worktree
+# built from seeded/<id>/patch.diff (removed again afterwards).  Usage: tools/regress_seeded.sh [id ...]
+# Output: one line per change; rc=1 with VIOLATION lines is the expected result.
 cd /verif
-for d in seeded/*; do
-  n=$(basename $d)
+ids="$@"; [ -z "$ids" ] && ids=$(ls seeded)
+base=${HSVERIF_REGRESS_DIR:-/var/tmp}
+for n in $ids; do
+  d=seeded/$n
   chk=$(/venv/bin/python -c "import json,re;m=json.load(open('$d/meta.json'));c=re.findall(r'C\d\d',m['caught_by']);print(c[0] if c else '')")
   [ -z "$chk" ] && { echo "$n: no check claimed (documented non-detection)"; continue; }
-  case $n in *-2) wt=/tmp/wt2_${n%-2};; *-3) wt=/tmp/wt3_${n%-3};; *-4) wt=/tmp/wt4_${n%-4};; *-5) wt=/tmp/wt5_${n%-5};; *) wt=/tmp/wt_$n;; esac
-  [ -d $wt ] || { echo "$n: worktree missing"; continue; }
-  out=$(HSVERIF_REPO=$wt ./check $chk --tier quick 2>&1); rc=$?
-  echo "$n check=$chk rc=$rc viol=$(echo "$out" | grep -c '^VIOLATION')"
+  wt=$base/hsreg_$n
+  git -C /repo worktree add --detach -q $wt >/dev/null 2>&1 || { echo "$n: cannot create worktree"; continue; }
+  if git -C $wt apply /verif/$d/patch.diff 2>/dev/null; then
+    out=$(HSVERIF_REPO=$wt ./check $chk --tier quick 2>&1); rc=$?
+    echo "$n check=$chk rc=$rc viol=$(echo "$out" | grep -c '^VIOLATION')"
+  else
+    echo "$n: patch does not apply"
+  fi
+  git -C /repo worktree remove --force $wt
 done
